@@ -361,8 +361,10 @@ class Call:
 
     def eval_new_data_offset(self, data_mask):
         if self._intermediate_data.kind == "constant":
-            # Return value passed as the argument, which can be an expression like '-2' or '1 + 1'
-            result = np.ones(len(data_mask.index)) * self.call.args[0].eval(data_mask, self.env)
+            # Return value passed as the argument, which can be an expression like '-2' or '1 + 1'.
+            # It is the only argument, passed by position or by name.
+            arg = self.call.args[0] if self.call.args else next(iter(self.call.kwargs.values()))
+            result = np.ones(len(data_mask.index)) * arg.eval(data_mask, self.env)
         else:
             # This works both for LazyVariable (offset(x)) and LazyCall (offset(np.log(x)))
             offset = self.call.eval(data_mask, self.env)  # returns instance of Offset
